@@ -371,7 +371,9 @@ MORE_THM = {
         "decode, and the bucket loses exactly these two (fused_line_undecodable, destroyed_newline_exact).",
  "C05": " Representation independence (Props/C05x, Lemmas/SpecLaws): two healthy caches with the same key -> entry and "
         "address -> bytes maps answer every history identically and reach the same maps again, also with listings, full "
-        "removals and clear in the history (lookups_depend_on_abstraction_only, _ext).",
+        "removals and clear in the history (lookups_depend_on_abstraction_only, _ext). Earlier entries never resurface: once a key "
+        "is inserted or removed again, every later history answers as if nothing had been done to it before, although the "
+        "shadowed record is still in the bucket (shadowed_entry_never_resurfaces).",
  "C07": " No finished insertion is lost: in the serial history the last operation on the key is that insertion or a later "
         "one, and lookups answer accordingly (no_finished_insert_lost). exists_hash next to any whole writer answers as before or "
         "as after it; two by-address writers of any data serialize with no collision hypothesis.",
